@@ -89,6 +89,7 @@ class EngineBase:
         self.known_modules = {'sys', 'os', 're', 'gc', 'time', 'unittest', 'zope', 'threading', 'subprocess', 'errno',
                               'traceback', 'io', 'math', 'random', 'queue', 'warnings', 'threadsupport'}
         self.iter_sorts = {}      # sort -> callable(engine, st, obj) -> list VRef (iteration sequence)
+        self.unpack_sorts = {}    # sort -> callable(engine, st, obj) -> VTup (tuple unpacking of an abstract object)
         self.callable_sorts = {}  # sort -> callable(engine, st, fobj, args) -> Val
         self.entry_fid = None
         self.cur_loops = []
